@@ -193,6 +193,32 @@ fixed("F20e", "C20", "e93b198",
 fixed("F20f", "C20", "721a4b8",
       "PDA.from_networkx dropped isolated states",
       {"kind": "pda", "finals": [0], "starts": [0], "states": [0, 1], "trans": [], "z0": None})
+# ------------------------------------------------------------------ C07
+def pat(p, strings, features=()):
+    return {"pattern": p, "strings": strings, "features": list(features), "excluded": []}
+
+
+fixed("F07a", "C07", "c1c66b9",
+      "PythonRegex kept one mandatory copy for {0}: a{0} rejected the empty string and accepted 'a'",
+      pat("a{0}b{0,2}", ["", "a", "b", "bb", "ab"], ["{0}", "{0,n}"]))
+fixed("F07b", "C07", "beb320f",
+      "PythonRegex negated sets removed ^ from the complement: [^a] rejected '^'",
+      pat("[^a]", ["^", "a", "b", ""], ["negset"]))
+fixed("F07c", "C07", "d2eb25d",
+      "PythonRegex kept the special meaning of . and $ inside sets: [.] accepted any character, [$] the empty string",
+      pat("[.]|[$]x", ["a", ".", "$x", "x", ""], ["set", "set_meta_literal", "alt"]))
+opened("F07d", "C07", "PythonRegex refuses or mis-reads a set with a leading ] literal ([]a] raises MisformedRegexError)",
+       pat("[]a]", ["]", "a", "", "b"], ["set", "set_leading_bracket"]),
+       None, None, "set_leading_bracket", ["set_leading_bracket"])
+opened("F07e", "C07", "PythonRegex: a shortcut inside a set followed by one of ( + * ) ? . $ in the same set keeps the metacharacter active ([\\d.] matches every character, [\\d(] is refused)",
+       pat("[\\d.]", ["a", "5", ".", ""], ["set", "set_shortcut", "set_meta_literal"]),
+       None, None, "set_shortcut_meta", ["set_shortcut_meta"])
+opened("F07f", "C07", "PythonRegex replaces shortcuts blindly: an escaped backslash followed by d, w or s is read as a shortcut (\\\\d does not match backslash-d)",
+       pat("\\\\d", ["\\d", "5", "\\5", ""], ["esc"]),
+       None, None, "backslash_dws", ["backslash_dws"])
+opened("F07g", "C07", "PythonRegex negated sets ignore escaped ] - ^ and shortcuts when complementing ([^\\d] accepts 5, [^\\]] accepts ])",
+       pat("[^\\d]|[^\\]]x", ["5", "a", "]x", "ax", ""], ["negset", "set_shortcut", "set_escape", "alt"]),
+       None, None, "negset_escape", ["negset_escape"])
 # ------------------------------------------------------------------ C06
 fixed("F06a", "C06", "2262869",
       "to_regex raised ValueError on automata with two start states",
